@@ -176,6 +176,10 @@ def run(check, prog):
     auto(check, prog)
     cscat_interpolation(check, prog)
     co_indexed(check, prog)
+    # a one-sphere cluster equals the single-sphere series only while the compiled
+    # expansion can hold it (rule shared with C02)
+    from . import c02 as _c02
+    _c02.cluster_order_cap(check, prog)
 
 
 def cluster(check, prog):
